@@ -100,6 +100,37 @@ pub fn field_mutations(rng: &mut Rng) -> Vec<Hostile> {
         m("desc.checksum.len=1", &|d| d.descs[0].checksum.truncate(1));
         m("desc.checksum.len=65", &|d| d.descs[0].checksum = vec![7; 65]);
         m("desc.checksum.len=300", &|d| d.descs[0].checksum = vec![7; 300]);
+        // A self-consistent layout that lies about sizes: every chunk large (but a size the
+        // format may declare for ONE chunk, and small enough to be allocated under the
+        // limits here) and back to back, so that sums over adjacent chunks — what one
+        // range request covers — are far beyond the address space. Memory may follow one
+        // chunk's declared size, never the sum.
+        m("desc.archive_size=64MiB(all,adjacent)", &|d| {
+            let mut off = 0u64;
+            for x in d.descs.iter_mut() {
+                x.archive_offset = off;
+                x.archive_size = 64 << 20;
+                off += 64 << 20;
+            }
+        });
+        for (name, count) in [("200", 200u32), ("4000", 4000)] {
+            m(&format!("desc.many_adjacent_64MiB(n={})", name), &|d| {
+                let proto = d.descs[0].clone();
+                let mut off = 0u64;
+                d.descs = (0..count)
+                    .map(|i| {
+                        let mut x = proto.clone();
+                        let hl = x.checksum.len().max(1).min(64);
+                        x.checksum = crate::util::b2(&i.to_le_bytes())[..hl].to_vec();
+                        x.archive_offset = off;
+                        x.archive_size = 64 << 20;
+                        off += 64 << 20;
+                        x
+                    })
+                    .collect();
+                d.rebuild_order = (0..count).collect();
+            });
+        }
         m("desc.duplicate", &|d| {
             let x = d.descs[0].clone();
             d.descs.push(x);
